@@ -570,6 +570,9 @@ func helperName(fn *ssa.Function) string {
 // isNewHelper: callee is a source function (or a closure inside one) of the module whose name is not in the
 // frozen table of functions that existed when the rules were written (known_funcs.go).
 func (c *Ctx) isNewHelper(callee *ssa.Function) bool {
+	if callee == nil {
+		return false
+	}
 	top := callee
 	for top.Parent() != nil {
 		top = top.Parent()
